@@ -20,5 +20,10 @@ for line in open('/verif/properties.jsonl'):
         subprocess.check_call(['git', '-C', '/repo', 'worktree', 'add', '--detach', '-q', wt, 'HEAD'])
     prop = f"{pid} — {p['title']}\n\n{p['statement']}\n\nQuantified over: {p['quantifier']['text']}\n\nWhere it lives: " + \
         '; '.join(f"{m['name']} ({m['where']})" for m in p['anchors']['mechanism'])
-    open(out + '/PROMPT.txt', 'w').write(tmpl.replace('__WT__', wt).replace('__OUT__', out).replace('__PROP__', prop))
+    prior = ''
+    if '__PRIOR__' in tmpl:   # one line per seeded change already recorded for this property
+        import glob
+        for m in sorted(glob.glob(f'/verif/seeded/{pid}-*/meta.json')):
+            prior += '  - ' + ' '.join(json.load(open(m)).get('summary', '').split())[:420] + '\n'
+    open(out + '/PROMPT.txt', 'w').write(tmpl.replace('__WT__', wt).replace('__OUT__', out).replace('__PROP__', prop).replace('__PRIOR__', prior.rstrip()))
 print('ok')
